@@ -4,8 +4,8 @@
 
   Accuracy: proved in GeoProofs/Lemmas/C16Q*.lean for sin, cos (2^-92 on [-piQ, piQ), 2^-91 up to
   |x| = 1000), sqrt (one grid step) and `piQ` (2e-40); asin through the a posteriori certificate
-  `asinCert` below (about 1e-13 given the certificate); atan2 not proved (about 1e-27 away from
-  |x| = 1 and 1e-14 at it, ample against the 1e-9 comparison tolerance). `ln` is not
+  `asinCert` below (2^-42 given the certificate; atan2 likewise, 2^-41 against `Complex.arg`; the true
+  errors are about 1e-27 away from |x| = 1 and 1e-14 at it). `ln` is not
   implemented (the Rhumb formulas are not evaluated by the driver).
 -/
 import GeoModel.Geodesy
